@@ -164,10 +164,12 @@ def check_scheme(ctx, s, Y=None, nvs=None):
         diff = D1 - D0
         consts = []
         llr_by_nv = {}
+        held = []
         for nv in (nvs or (1e-3, 1e-2, 0.1, 1.0, 10.0, 100.0, 1e3)):
             ok, llr = ctx.call(lambda: dm(s, dem, Ys, float(nv)), "C06.b_raises", cell, {"scheme": s, "y": [complex(Ys[0])], "noise_var": nv, "position": pos}, checker=CHK)
             if not ok:
                 continue
+            held.append((nv, llr, llr.astype(np.float64)))  # llr still shares memory with the tensor the demodulator returned
             llr = llr.astype(np.float64)
             llr_by_nv[nv] = llr
             ctx.ev(llr.size)
@@ -202,6 +204,12 @@ def check_scheme(ctx, s, Y=None, nvs=None):
                              {"llr": float(llr[i, j]), "llr*nv/(D1-D0)": float(ratio[i, j]), "bit": j}, {"constant": c, "D1_minus_D0": float(diff[i, j])},
                              "LLR is not a fixed positive multiple of (D1-D0)/noise_var", CHK)
                     ctx.fail_total += len(devi) - 1
+        # results returned by earlier calls still hold their values after the later calls on the same demodulator object
+        stale = [nv_ for nv_, view_, copy_ in held if not np.array_equal(view_.astype(np.float64), copy_)]
+        if held:
+            ctx.ev()
+            ctx.check(not stale, "C06.i_output_not_overwritten", cell, {"scheme": s, "position": pos, "noise_vars": [h_[0] for h_ in held]}, stale, [],
+                      "LLRs returned by an earlier call were overwritten by a later call on the same demodulator", CHK)
         if len(consts) >= 2:
             cm = float(np.median(consts))
             ctx.check(all(abs(c - cm) <= 2e-3 * abs(cm) for c in consts), "C06.d_noise_scaling", cell, {"scheme": s, "position": pos}, consts, cm,
